@@ -19,7 +19,9 @@ RULE = (
     "with 2..3 locations (SimShellConnector: real sh per location in a private mount namespace), every job allocated "
     "on 1..L locations, optionally fixed directories for one step (a separate tree, or the target working directory "
     "itself, i.e. an ancestor of the other jobs' directories, as the CWL translator binds its injector/collector "
-    "steps), the steps fed at seed-chosen instants, optionally the k-th mkdir on a non-first location fails. Local: scatter/gather workflows with 2..16 concurrent jobs per step (plus pipelines and diamonds) on the real "
+    "steps), the steps fed at seed-chosen instants, optionally the k-th mkdir on a non-first location fails; wipe family "
+    "(enumerated_cases): two steps share the fixed directories, which vanish from every node (fault "
+    "fixed_directories_wiped) once the first step's jobs have their tokens, before the second step is fed. Local: scatter/gather workflows with 2..16 concurrent jobs per step (plus pipelines and diamonds) on the real "
     "LocalConnector with per-run scratch work directories; optionally the binding fixes the input/output/tmp "
     "directory of one step (separate tree or the working directory itself); optional schedule-phase failures (directory creation fails) recovered by the rollback "
     "manager; seeded latencies for every database, scheduler and filesystem step. Oracle evaluated at the instant "
@@ -63,11 +65,18 @@ def run_remote(sim, params):
     # the binding fixes the directories either to a separate tree or to the target's working directory itself (what the
     # CWL translator does for its injector/collector schedule steps): an ancestor of every other job's directories
     fixed_is_workdir = bool(t.draw(2, "remote.fixed.workdir"))
+    # wipe family: two steps share the same binding-fixed directories; when every job of the first step has its token the
+    # fixed tree vanishes from every node (reboot, tmp cleaner, recreated container); the second step is fed afterwards and
+    # must find its directories created again
+    wipe = params.get("family") == "wipe"
+    if wipe:
+        nsteps, fixed_is_workdir, fault_at = 2, False, None
     info = {"mode": "remote", "fixed_is_workdir": fixed_is_workdir, "locations": nloc, "locations_per_job": per_job, "steps": nsteps, "jobs": njobs,
             "fixed_step": fixed_step if fixed_step < nsteps else None, "mkdir_fails_at": fault_at}
     problems = []
     seen = {}
     counters = {"tokens": 0, "mkdir": 0, "fault_fired": False}
+    state_wipe = {}
 
     async def main():
         ctx = make_context(sim)
@@ -97,7 +106,7 @@ def run_remote(sim, params):
         for si in range(nsteps):
             binding = BindingConfig(targets=[Target(deployment=cfg, locations=per_job, workdir=workdir)])
             kw = {}
-            is_fixed = si == fixed_step
+            is_fixed = si == fixed_step or wipe
             if is_fixed and fixed_is_workdir:
                 kw = {"input_directory": workdir, "output_directory": workdir, "tmp_directory": workdir}
             elif is_fixed:
@@ -113,10 +122,19 @@ def run_remote(sim, params):
         async def feed(si, p):
             # the steps receive their inputs at seed-chosen instants: which step schedules first is part of the schedule
             await sim.io("feed", f"S{si}")
+            if wipe and si == 1:
+                await first_done.wait()
+                import shutil
+
+                for n in names:
+                    shutil.rmtree(os.path.join(conn.roots[n], "fixed"), ignore_errors=True)
+                sim.fault("fixed_directories_wiped")
             for i in range(njobs):
                 p.put(Token(value=i, tag=f"0.{i}"))
             p.put(TerminationToken())
 
+        first_done = asyncio.Event()
+        state_wipe["event"] = first_done
         feeders = [asyncio.create_task(feed(si, p), name=f"feed{si}") for si, p in enumerate(ports)]
         try:
             await StreamFlowExecutor(wf).run()
@@ -135,6 +153,10 @@ def run_remote(sim, params):
             if isinstance(token, JobToken):
                 job = token.value
                 counters["tokens"] += 1
+                if wipe and job.name.startswith("/S0/"):
+                    counters["s0"] = counters.get("s0", 0) + 1
+                    if counters["s0"] == njobs and "event" in state_wipe:
+                        state_wipe["event"].set()
                 locs = ctx.scheduler.get_locations(job.name)
                 if len(locs) != per_job:
                     problems.append(("wrong_allocation", f"job {job.name} allocated on {len(locs)} locations instead of {per_job}"))
@@ -172,8 +194,14 @@ def run_remote(sim, params):
     return {"nontrivial": per_job > 1 or njobs >= 4, "sample": info}
 
 
+def cases(tier):
+    return [{"family": "wipe"} for _ in range(60 if tier == "quick" else 3000)]
+
+
 def run(sim, params):
     t = sim.tape
+    if params.get("family") == "wipe":
+        return run_remote(sim, params)
     if t.draw(3, "mode.remote") == 0:
         return run_remote(sim, params)
     kind = ("sg", "sg", "sg2", "pipe", "diamond")[t.draw(5, "shape")]
